@@ -338,6 +338,9 @@ fn c12(seed: u64, tier: &str, thorough: bool) -> CheckPlan {
     for (label, text) in crate::checks::c12::literal_texts().into_iter().chain(crate::checks::c12::unicode_span_texts().into_iter()) {
         jobs.push(job("C12", "text", derive(seed, &label, 0), tier, json!({"label": label, "text": text, "envs": 2})));
     }
+    for (label, text) in crate::checks::c12::sandbox_texts().into_iter().chain(crate::checks::c12::long_tuple_texts().into_iter()) {
+        jobs.push(job("C12", "text", derive(seed, &label, 0), tier, json!({"label": label, "text": text, "envs": envs * 2})));
+    }
     for (label, text) in crate::checks::c12::book_examples() {
         jobs.push(job("C12", "text", derive(seed, &label, 0), tier, json!({"label": label, "text": text, "envs": envs})));
     }
